@@ -217,6 +217,9 @@ func init() {
 		crlf := c.Bool()
 		noFinalNL := c.Bool()
 		n := c.Choose(maxLines + 1)
+		if n == 0 {
+			c14AddedOption(c, ignore, crlf)
+		}
 		var lines []string
 		var idx []int
 		pool := c14AllIdx
@@ -285,4 +288,38 @@ func errType2(err error) string {
 		return "IniError"
 	}
 	return errType(err)
+}
+
+// c14AddedOption: an option handed to the library with (*Group).AddOption is an option like any other for the reader.
+func c14AddedOption(c *explore.Ctx, ignore, crlf bool) {
+	d := c14LinesDecl(ignore)
+	b := d.BuildTags()
+	if b.Err != nil {
+		return
+	}
+	var added string
+	b.Parser.Command.Group.AddOption(&flags.Option{LongName: "added", Description: "added with AddOption"}, &added)
+	nl := "\n"
+	if crlf {
+		nl = "\r\n"
+	}
+	text := "added = x" + nl + "S = a" + nl
+	var err error
+	func() {
+		defer func() {
+			if r := recover(); r != nil {
+				c.Fail("panic|"+explore.PanicSite(), map[string]interface{}{"panic": fmt.Sprint(r), "input": text, "note": "option --added was added with (*Group).AddOption"})
+			}
+		}()
+		err = flags.NewIniParser(b.Parser).Parse(strings.NewReader(text))
+	}()
+	if c.Failed() {
+		return
+	}
+	c.Hit("option-added-with-AddOption")
+	if err != nil {
+		c.Fail("well-formed-input-rejected|added-option", err.Error())
+	} else if added != "x" {
+		c.Fail("value-changed-by-surrounding-lines|added-option", added)
+	}
 }
